@@ -581,9 +581,10 @@ def observers(ref: RefTable, tier):
         ops.append(['values', f])
     ops.append(['count'])
     ops.append(['extract'])
-    ks = [2, 3, 5]
+    ks = [2, 3, 5] if tier == 'quick' else [2, 3, 4, 5]
     for k in ks:
-        for g in (None, 'id'):
+        # on panel data every split is grouped by the panel column; another group column is refused
+        for g in ((None, 'id') if ref.panel is not None else (None, 'id', 'c')):
             ops.append(['split', k, g])
     for size in (None, 1, 2):
         ops.append(['sample', size])
@@ -743,20 +744,26 @@ def run_observer(R: Replayed, op, tier, rec: Rec, ctx, only_answer=None):
                 if got != want:
                     problems.append(('count', f'count({c!r}, {v}) = {got}, the table holds {want}', [c, v]))
     elif k == 'extract':
-        for lst in extract_lists(n, tier):
-            if only_answer is not None and only_answer != lst:
+        full = list(range(n))
+        plan = [('list', lst) for lst in extract_lists(n, tier)]
+        # the argument is declared Iterable[int]: other iterable forms of a few position lists
+        plan += [('tuple', full), ('range', full), ('iterator', full), ('iterator', [n - 1, 0]), ('tuple', [n - 1, 0])]
+        for form, lst in plan:
+            ans = lst if form == 'list' else [form, lst]
+            if only_answer is not None and only_answer != ans:
                 continue
-            r, err = guard(lambda: db.extract_rows(lst), None)
+            arg = {'list': list, 'tuple': tuple, 'iterator': iter, 'range': lambda q: range(len(q))}[form](lst)
+            r, err = guard(lambda: db.extract_rows(arg), None)
             if err:
-                problems.append((err[0], err[1], lst))
+                problems.append((err[0] + ('' if form == 'list' else '-' + form + '-argument'), err[1], ans))
                 continue
             sub = r[0].data
             cols = [str(c) for c in sub.columns]
             want = [ref.rows[p][0] for p in lst]
-            case(lst, frame_rows(sub), ('extract', len(lst)), nontrivial=False)
+            case(ans, frame_rows(sub), ('extract', form, len(lst)), nontrivial=False)
             bad = [('columns', f'extract_rows columns {cols}')] if cols != ref.cols else compare_rows(
-                cols, frame_rows(sub), ref, want, f'extract_rows({lst})')
-            problems += [('extract-' + c, d, lst) for c, d in bad]
+                cols, frame_rows(sub), ref, want, f'extract_rows({form} {lst})')
+            problems += [('extract-' + c, d, ans) for c, d in bad]
     elif k == 'split':
         kk, g = op[1], op[2]
         group_col = ref.panel if ref.panel is not None else g
